@@ -29,7 +29,8 @@ RULE = ("breadth-first search over histories of Dataset mutations (alphabet in t
 ASSUMPTIONS = ["RefDS (mc/props/c13.py) encodes the statement: shared registry, pruning of unused axes, rejection without side effect",
                "histories are replayed on fresh objects (no deep copies of live Datasets)"]
 
-XL, YL, ZL, UL = [10, 20], ["a", "b"], [0.5, 1.5], [1, 2, 3]
+# z: float labels of large magnitude (Julian days); 'zbad' differs from them by two weeks, i.e. by less than 1e-5 of the magnitude
+XL, YL, ZL, UL = [10, 20], ["a", "b"], [2451545.0, 2451546.0], [1, 2, 3]
 POOL = {   # arrays that can be assigned: dims + labels (values derive from the id)
     "s0": ([], []),
     "x": (["x"], [XL]), "xbad": (["x"], [[10, 30]]), "xlong": (["x"], [[10, 20, 30]]),
@@ -38,7 +39,7 @@ POOL = {   # arrays that can be assigned: dims + labels (values derive from the 
     "xy_bad2": (["x", "y"], [XL, ["b", "a"]]), "xy_bad1": (["x", "y"], [[20, 10], YL]),
     "zx_bad": (["z", "x"], [ZL, [10, 30]]),     # new axis z is listed BEFORE the mismatching x
     "xz": (["x", "z"], [XL, ZL]), "z": (["z"], [ZL]), "u": (["u"], [UL]), "ubad": (["u"], [[1, 2, 4]]),
-    "xw": (["x", "w"], [XL, [7, 8]]),
+    "xw": (["x", "w"], [XL, [7, 8]]), "zbad": (["z"], [[2451559.0, 2451560.0]]),
 }
 NONDA = {"list2": [1.5, 2.5], "scalar": 4.0}
 KEYS = ["a", "b", "c"]
@@ -162,7 +163,7 @@ def enabled(ref, tier):
     dims = ref.dims()
     for key in KEYS:
         for pid in POOL:
-            if tier == "quick" and pid in ("xw", "ubad", "xlong") and key != "a":
+            if tier == "quick" and pid in ("xw", "ubad", "xlong", "zbad") and key != "a":
                 continue
             ev.append(["set", key, pid])
         if key == "c":
